@@ -18,7 +18,7 @@ struct Case {
 }
 
 fn case_line(c: &Case) -> String {
-    let mut s = format!("{} {} {} {} | {} | {}", c.id, c.class, if c.fragment { "frag" } else { "doc" }, c.input.len(), dump_tokens(&c.input, c.fragment), enc(&c.input));
+    let mut s = format!("{} {} {} {} | {} | {}", c.id, c.class, if c.fragment { "frag" } else if c.input.starts_with('\u{feff}') { "bomdoc" } else { "doc" }, c.input.len(), dump_tokens(&c.input, c.fragment), enc(&c.input));
     if let Some((t, sp, ids)) = &c.expect {
         s.push_str(&format!(" | {} | {} | {}", t, sp, ids));
     }
@@ -49,6 +49,14 @@ fn sound(xot: &Xot, root: xot::Node) -> Option<String> {
             d.dedup();
             if d.len() != ps.len() {
                 return Some("an element declares one prefix twice".into());
+            }
+        }
+        if let Value::ProcessingInstruction(pi) = xot.value(n) {
+            // PITarget ::= Name - (('X' | 'x') ('M' | 'm') ('L' | 'l')): the target xml, in any case, is reserved; an XML
+            // declaration is no node of the tree
+            let (local, ns) = xot.name_ns_str(pi.target());
+            if ns.is_empty() && local.eq_ignore_ascii_case("xml") {
+                return Some(format!("a processing instruction with the reserved target {:?}", local));
             }
         }
         let kids: Vec<_> = xot.children(n).collect();
@@ -219,7 +227,7 @@ fn c02_extra(c: &Case, _xot: &Xot, _root: xot::Node, tt: &str, out: &mut Out, st
         return;
     }
     // bytes in a declared / sniffed encoding
-    let has_decl = c.input.trim_start_matches('\u{feff}').starts_with("<?xml ");
+    let has_decl = { let t = c.input.trim_start_matches('\u{feff}'); t.starts_with("<?xml") && t[5..].starts_with(|ch: char| ch == ' ' || ch == '\t' || ch == '\r' || ch == '\n') };
     let body = c.input.trim_start_matches('\u{feff}');
     let mut variants: Vec<(&str, Vec<u8>)> = vec![("utf-8", c.input.as_bytes().to_vec())];
     if !has_decl {
@@ -234,9 +242,39 @@ fn c02_extra(c: &Case, _xot: &Xot, _root: xot::Node, tt: &str, out: &mut Out, st
         variants.push(("utf-16be-bom", be));
         if body.chars().all(|ch| (ch as u32) < 0x80 || ((ch as u32) >= 0xA0 && (ch as u32) <= 0xFF)) {
             for label in ["ISO-8859-1", "windows-1252"] {
+                // the declaration in the plain spelling and in one of the other well-formed spellings (XMLDecl ::= '<?xml'
+                // VersionInfo EncodingDecl? SDDecl? S? '?>', Eq ::= S? '=' S?, either quote), chosen by the input
                 let mut v: Vec<u8> = format!("<?xml version=\"1.0\" encoding=\"{}\"?>", label).into_bytes();
                 v.extend(body.chars().map(|ch| ch as u32 as u8));
                 variants.push((if label == "ISO-8859-1" { "latin1" } else { "cp1252" }, v));
+                let mut v: Vec<u8> = decl_spelling(input_hash(&c.input) ^ (label.len() as u64), Some(label)).into_bytes();
+                v.extend(body.chars().map(|ch| ch as u32 as u8));
+                variants.push((if label == "ISO-8859-1" { "latin1-spelled" } else { "cp1252-spelled" }, v));
+            }
+        }
+        // a UTF-8 document whose declaration names no encoding, with text further down that looks like an encoding declaration
+        // (in a comment or a processing instruction in front of the document element): the document is UTF-8 all the same
+        if body.chars().any(|ch| (ch as u32) >= 0x80) {
+            let h = input_hash(&c.input);
+            let lure = ["ISO-8859-1", "windows-1252", "koi8-r", "utf-16"][(h % 4) as usize];
+            let q = if (h >> 2) & 1 == 0 { '"' } else { '\'' };
+            let word = if (h >> 3) % 3 == 0 { "charset" } else { "encoding" };
+            let front = if (h >> 5) & 1 == 0 { format!("<!-- {}={}{}{} -->", word, q, lure, q) } else { format!("<?note {}={}{}{}?>", word, q, lure, q) };
+            let text = format!("{}{}{}", decl_spelling(h >> 6, None), front, body);
+            let mut xs = Xot::new();
+            if let Ok(Ok(r)) = guard(|| xs.parse(&text)) {
+                let want = tree_text(&xs, r);
+                let mut xb = Xot::new();
+                match guard(|| xb.parse_bytes(text.as_bytes())) {
+                    Ok(Ok(root)) => {
+                        stats.bump("c02.bytes.utf8-with-encoding-lookalike");
+                        if tree_text(&xb, root) != want {
+                            out.fail(&c.id, "bytes-differ:utf8-with-encoding-lookalike", &format!("parse_bytes of the UTF-8 bytes of {:?} builds {} instead of {}", text, tree_text(&xb, root), want));
+                        }
+                    }
+                    Ok(Err(e)) => out.fail(&c.id, "bytes-differ:utf8-with-encoding-lookalike", &format!("parse_bytes of the UTF-8 bytes of {:?} is rejected: {}", text, error_text(&e))),
+                    Err(()) => out.fail(&c.id, "parse-panic", &format!("parse_bytes of the UTF-8 bytes of {:?} panicked", text)),
+                }
             }
         }
     }
@@ -281,6 +319,30 @@ fn c02_extra(c: &Case, _xot: &Xot, _root: xot::Node, tt: &str, out: &mut Out, st
             Err(()) => out.fail(&c.id, "parse-panic", &format!("parse_bytes of the {} encoding panicked", label)),
         }
     }
+}
+
+fn input_hash(s: &str) -> u64 {
+    let mut h: u64 = 0xcbf29ce484222325;
+    for b in s.as_bytes() { h ^= *b as u64; h = h.wrapping_mul(0x100000001b3); }
+    h ^ (h >> 29)
+}
+
+/// One well-formed spelling of an XML declaration, chosen by `h`: either quote per pseudo-attribute, white space around each
+/// '=', one or more white space characters between the pseudo-attributes, an optional standalone declaration, optional white
+/// space before '?>', the label in either case.
+fn decl_spelling(h: u64, label: Option<&str>) -> String {
+    let q = |k: u64| if (h >> k) & 1 == 0 { '"' } else { '\'' };
+    let eq = |k: u64| ["=", " =", "= ", " = "][((h >> k) % 4) as usize];
+    let sep = |k: u64| [" ", "  ", "\n", "\t"][((h >> k) % 4) as usize];
+    let mut s = format!("<?xml{}version{}{}1.0{}", sep(0), eq(2), q(4), q(4));
+    if let Some(l) = label {
+        let l = if (h >> 5) & 1 == 0 { l.to_string() } else { l.to_lowercase() };
+        s.push_str(&format!("{}encoding{}{}{}{}", sep(6), eq(8), q(10), l, q(10)));
+    }
+    match (h >> 11) % 3 { 0 => {}, k => s.push_str(&format!("{}standalone{}{}{}{}", sep(13), eq(15), q(17), if k == 1 { "yes" } else { "no" }, q(17))) }
+    s.push_str(["", " ", "\n"][((h >> 18) % 3) as usize]);
+    s.push_str("?>");
+    s
 }
 
 fn strip_slots(s: &str) -> String {
